@@ -26,3 +26,13 @@ Definition ef_case (max_line : N) (bad : list str) (ps : list part) : string :=
   "P=" ++ str_of_outcome (fun te : N * str => str_of_N (fst te) ++ ":" ++ str_of_cps (snd te))
                          (preload str pe pe file)
   ++ "#S=" ++ str_of_outcome str_of_cps (stream str pe pe max_line file).
+
+(* phase 1 of the differential run: every text some line of the file hands to the event-line
+   parser (independent of whether other lines fail), so that the driver can ask the real parser
+   about each of them *)
+Definition ef_requests (ps : list part) : string :=
+  let texts := flat_map (fun seg => match parse_line str Some Some seg with
+                                    | Ok (Some t) => [t]
+                                    | _ => []
+                                    end) (split_incl (assemble ps)) in
+  join ";" (map str_of_cps texts).
